@@ -65,6 +65,58 @@ inductive ReadOut | data (b : Bytes) | eof | blocks
 def readOut (s : RState) (n : Nat) : ReadOut :=
   if s.buf ≠ [] then .data (s.buf.take n) else if s.live then .blocks else .eof
 
+/-- `Conn.SetReadBuffer(max)` on a connection whose negotiated block size is `bs`: zero (or less)
+means unlimited, a positive value below the block size is raised to the block size, anything else
+is taken as it is — in particular it is NOT raised to whatever the buffer once grew to -/
+def clampLimit (n bs : Nat) : Nat := if 0 < n ∧ n < bs then bs else n
+
+def setMax (s : RState) (n bs : Nat) : RState := { s with maxBuf := clampLimit n bs }
+
+/-! ### the accepting side: listener life cycle
+
+`Handler.l` holds at most one listener per local address.  An incoming `<open/>` is answered
+`result` iff a listener is registered at that moment (else `not-acceptable`); the new stream is
+registered and handed to a waiting `Accept`, or the handler waits until `Accept` is called or the
+listener is closed (then the stream is dropped again). -/
+
+structure LState where
+  listening : Bool := false
+  pending : Option Nat := none     -- sid of the stream the handler is trying to hand over
+  acceptors : Nat := 0             -- `Accept` calls that are waiting
+  streams : List Nat := []         -- registered sids
+  deriving DecidableEq, Repr
+
+inductive LOp
+  | listen | closeL | accept | open (sid : Nat)
+  deriving DecidableEq, Repr
+
+/-- result of a step: the new state, the reply to an open request (`some true` = result, `some
+false` = not-acceptable), and how many `Accept` calls return a connection / an error now -/
+structure LOut where
+  st : LState
+  reply : Option Bool := none
+  conns : Nat := 0
+  errs : Nat := 0
+  deriving DecidableEq, Repr
+
+def lstep (s : LState) : LOp → LOut
+  | .listen => { st := { s with listening := true } }
+  | .closeL =>
+    { st := { s with listening := false, pending := none, acceptors := 0,
+                     streams := match s.pending with | some sid => s.streams.erase sid | none => s.streams },
+      errs := s.acceptors }
+  | .accept =>
+    if !s.listening then { st := s, errs := 1 }
+    else match s.pending with
+      | some _ => { st := { s with pending := none }, conns := 1 }
+      | none => { st := { s with acceptors := s.acceptors + 1 } }
+  | .open sid =>
+    if !s.listening then { st := s, reply := some false }
+    else if s.pending.isSome then { st := s }     -- the serve loop is still inside the previous hand-off
+    else if s.acceptors > 0 then
+      { st := { s with acceptors := s.acceptors - 1, streams := sid :: s.streams }, reply := some true, conns := 1 }
+    else { st := { s with pending := some sid, streams := sid :: s.streams }, reply := some true }
+
 /-- `open`: a connection is returned iff the peer answered the open request with a result
 (repaired code: an error reply is returned as that error) -/
 def openResult (peerAccepts : Bool) : Option Unit := if peerAccepts then some () else none
